@@ -234,6 +234,7 @@ def _generate_code(
     # Generators normalize the names of their models. Rendered code refers to other models (parents included)
     # by name, so every generator has to exist before the first class is rendered.
     generators = _create_generators(structure, class_generator, class_generator_kwargs)
+    _fix_class_name_duplicates(generators)
     return _render_generators(generators)
 
 
@@ -246,6 +247,22 @@ def _create_generators(structure: List[dict], class_generator: Type[GenericModel
         )
         for data in structure
     ]
+
+
+def _fix_class_name_duplicates(generators: List[tuple], used: set = None):
+    """
+    The registry makes raw model names unique, but different raw names can normalize into one class name
+    ("café" and "cafe"): keep the class names of a module distinct
+    """
+    used = set() if used is None else used
+    for gen, nested_generators in generators:
+        name = gen.model.name
+        while name in used:
+            name += "_"
+        used.add(name)
+        if name != gen.model.name:
+            gen.model.set_raw_name(name, generated=gen.model.is_name_generated)
+        _fix_class_name_duplicates(nested_generators, used)
 
 
 def _render_generators(generators: List[tuple]) -> Tuple[ImportPathList, List[str]]:
